@@ -72,6 +72,9 @@ func genC11(seed uint64, tier string, idx int) *Plan {
 			a.Ops = append(a.Ops, Op{K: "send", Data: f.Raw, End: true, Frame: len(frames)})
 			for n := g.r.intn(3); n > 0; n-- {
 				h := g.mkFrame(ci, 0x0002, g.randSerial(), nil)
+				if g.r.chance(35) {
+					h = g.mkFrame(ci, 0x0200, g.randSerial(), g.wellFormedBody(0x0200, keys[ki].v19, nil))
+				}
 				frames = append(frames, h)
 				a.Ops = append(a.Ops, Op{K: "send", Data: h.Raw, End: true, Frame: len(frames)})
 			}
